@@ -1583,3 +1583,62 @@ def r14(cx):
 
 RS.explanation += (' In the system layer set_disposition updates the signal mask on every successful path, decided by the new disposition alone: '
                    'blocked before a handler is installed, unblocked after Default/Ignore is installed whatever the previous disposition was (R14).')
+
+
+# ---------------------------------------------------------------------------------------
+# wave 5 (reported as pre-existing by seed agent C11w5; fix d60b1c6): the handler's slot array must hold every distinct signal
+_SLOTS = 'yash_env::system::real::CAUGHT_SIGNALS'
+_SIGNAL_NAME = 'yash_env::signal::Name'
+
+
+def _const_int(F, node, depth=0):
+    node = H.peel(node) if isinstance(node, dict) else node
+    if not isinstance(node, dict) or depth > 6:
+        return None
+    if node.get('k') == 'lit' and isinstance(node.get('v'), int):
+        return node['v']
+    if node.get('k') == 'block' and not node.get('stmts'):
+        return _const_int(F, node.get('e'), depth + 1)
+    if node.get('k') == 'path' and node.get('def') in F.hir and str(F.hir[node['def']].get('kind')).startswith(('Const', 'AnonConst', 'AssocConst')):
+        return _const_int(F, F.hir[node['def']]['body'], depth + 1)
+    return None
+
+
+@RS.rule('C11.R15', 'K-CONST', 'a caught signal is never dropped by the handler for want of room: the async-signal-safe handler of the real '
+         'system records each distinct signal in one slot of a fixed static array (a second arrival of the same signal reuses its slot) '
+         'and the slots are emptied only by caught_signals() after pselect; trapped signals stay blocked outside pselect, so EVERY trapped '
+         'signal may be delivered in one burst - the array must have at least as many slots as the shell knows signals (the named '
+         'signals of signal::Name; real-time signals come on top)')
+def r15(cx):
+    F = cx.F
+    cx.require(_SLOTS in F.hir, 'static CAUGHT_SIGNALS not found (anchor moved: review how the handler hands signals over)')
+    h = F.hir[_SLOTS]
+    cx.fn(_SLOTS)
+    lens = []
+    for k in sorted(F.hir):
+        if k.startswith(_SLOTS + '::{constant#'):
+            lens.append(_const_int(F, F.hir[k]['body']))
+    body = H.peel(h['body'])
+    if isinstance(body, dict) and body.get('k') == 'repeat' and isinstance(body.get('n'), dict):
+        lens.append(_const_int(F, body['n']))
+    lens = [x for x in lens if x is not None]
+    cx.require(lens, 'the length of CAUGHT_SIGNALS is not a constant this rule can read')
+    cx.require(_SIGNAL_NAME in F.adts, 'signal::Name not found')
+    named = [v['name'] for v in F.adts[_SIGNAL_NAME]['variants'] if not v['fields']]
+    ranged = [v['name'] for v in F.adts[_SIGNAL_NAME]['variants'] if v['fields']]
+    cx.require(len(named) >= 20, 'signal::Name lists fewer than 20 named signals (anchor changed)')
+    n = min(lens)
+    cx.site('CAUGHT_SIGNALS has %d slots; signal::Name knows %d named signals (+ the real-time ranges %s)' % (n, len(named), ranged))
+    # the handler must fill slots by compare-exchange from the first free one and reuse the slot of the same signal
+    hb = F.bodies.get('yash_env::system::real::catch_signal') or F.main_body('yash_env::system::real::catch_signal')
+    cas = Q.find_calls(hb, [re.compile(r'Atomic::<isize>::compare_exchange$|AtomicIsize::compare_exchange$')])
+    cx.site('catch_signal: compare_exchange x%d' % len(cas))
+    cx.require(cas, 'catch_signal no longer claims a slot with compare_exchange (review the hand-over protocol)')
+    if n < len(named):
+        cx.violation(_SLOTS, 'fewer-slots-than-signals', 'the handler has %d slots for %d named signals (plus real-time signals): when more '
+                     'than %d distinct trapped signals are pending at one pselect - they stay blocked, hence pending, while the shell is '
+                     'busy - the later ones find no slot and their trap actions never run (`trap` on 9 signals, all sent during one slow '
+                     'built-in step: two actions are lost)' % (n, len(named), n), loc='%s:%s' % (h['file'], h['line']))
+
+
+RS.explanation += ' The signal handler of the real system has a slot for every signal the shell knows, so no caught signal is dropped (R15).'
